@@ -62,7 +62,7 @@ def run(ctx):
                     else:
                         ctx.ob("R11.1", key + "/response", None, detail="UNDECIDED: response %s" % show(r)[:120])
                         continue
-                sw = [(i, e, state_delta(e)) for i, e in enumerate(p.effects) if e.kind == "write" and e.item == STATE]
+                sw = [(i, e, state_delta(e, p)) for i, e in enumerate(p.effects) if e.kind == "write" and e.item == STATE]
                 pays = []
                 for h, m in ents:
                     if h in ("submsg", "msg"):
